@@ -85,9 +85,12 @@ func (h H) onlyCallers(rule, calleeSpec string, allowed ...string) {
 	n := 0
 	for _, s := range h.P.Callers(callee) {
 		n++
-		root := h.name(core.Root(s.Fn))
-		h.C.Check(rule, fmt.Sprintf("call %s in %s", h.name(callee), root), allowedSet[root], h.pos(s.Instr),
-			fmt.Sprintf("%s may only be called from {%s}; call found in %s", h.name(callee), strings.Join(allowed, ", "), h.name(s.Fn)))
+		// a site inside a helper no rule knows by name counts for the known
+		// functions that (transitively) call that helper
+		for _, root := range h.effectiveRoots(s.Fn) {
+			h.C.Check(rule, fmt.Sprintf("call %s in %s", h.name(callee), root), allowedSet[root], h.pos(s.Instr),
+				fmt.Sprintf("%s may only be called from {%s}; call found in %s", h.name(callee), strings.Join(allowed, ", "), h.name(s.Fn)))
+		}
 	}
 	for _, s := range h.P.FuncValueUses(callee) {
 		h.C.Check(rule, fmt.Sprintf("value-use %s in %s", h.name(callee), h.name(core.Root(s.Fn))), false, h.pos(s.Instr),
@@ -106,9 +109,10 @@ func (h H) onlyWriters(rule, fieldSpec string, allowed ...string) []core.Site {
 	sites := h.P.StoresTo(f)
 	short := fieldSpec[strings.Index(fieldSpec, ":")+1:]
 	for _, s := range sites {
-		root := h.name(core.Root(s.Fn))
-		h.C.Check(rule, fmt.Sprintf("write %s in %s", short, root), allowedSet[root], h.pos(s.Instr),
-			fmt.Sprintf("field %s may only be written in {%s}; write found in %s", short, strings.Join(allowed, ", "), h.name(s.Fn)))
+		for _, root := range h.effectiveRoots(s.Fn) {
+			h.C.Check(rule, fmt.Sprintf("write %s in %s", short, root), allowedSet[root], h.pos(s.Instr),
+				fmt.Sprintf("field %s may only be written in {%s}; write found in %s", short, strings.Join(allowed, ", "), h.name(s.Fn)))
+		}
 	}
 	h.C.Floor(rule+" ("+short+")", len(sites), 1)
 	return sites
@@ -164,6 +168,14 @@ func (h H) gateMode(mode, rule, construct string, target ssa.Instruction, wants 
 		h.C.Check(rule, construct, true, h.pos(target), "guard ["+strings.Join(ws, " | ")+"] on every path")
 		return true
 	}
+	// the site lies in a helper no rule knows by name (extracted by a
+	// refactoring): the guard may as well lie on the paths to its call sites
+	if h.P.IsNew(target.Parent()) {
+		if lr := h.crossDeep(target, pass, 0); lr.OK {
+			h.C.Check(rule, construct, true, h.pos(target), "guard ["+strings.Join(ws, " | ")+"] on every path (through the callers of "+h.name(core.Root(target.Parent()))+")")
+			return true
+		}
+	}
 	loose := fi.MustCross(target, pass)
 	if loose.OK && len(unstable) > 0 {
 		h.C.Check(rule, construct, false, h.pos(target), "guard ["+strings.Join(ws, " | ")+"] is tested but not stable: "+strings.Join(unstable, "; "))
@@ -178,17 +190,51 @@ func (h H) gateMode(mode, rule, construct string, target ssa.Instruction, wants 
 func (h H) gateLoose(rule, construct string, target ssa.Instruction, want core.Atom) bool {
 	fi := h.P.Info(target.Parent())
 	r := fi.MustCrossAtom(target, want)
+	if !r.OK && h.P.IsNew(target.Parent()) {
+		if lr := h.crossDeep(target, func(a core.Atom) bool { return a.Implies(want) }, 0); lr.OK {
+			r = lr
+		}
+	}
 	return h.C.Check(rule, construct, r.OK, h.pos(target), fmt.Sprintf("a path reaches this site without passing the guard [%s]: %s", want, core.Short(r.Witness, 400)))
 }
 
 // rangeVar: the local that receives the value of `for _, n := range <expr>`.
 func (h H) rangeVar(fn *ssa.Function, rangeExpr string) string {
+	return h.holderOf(fn, "each("+rangeExpr+").val")
+}
+
+// holderOf tells under which name reads of the local variable that receives
+// the value `val` appear in canonical forms: the value's own form when the
+// local is a plain single-assignment copy (core.copyLocal), else local:<name>.
+// When no local holds the value, the value's form itself.
+func (h H) holderOf(fn *ssa.Function, val string) string {
 	fi := h.P.Info(fn)
-	out := "each(" + rangeExpr + ").val"
+	out := val
 	core.Instrs(fn, func(in ssa.Instruction) {
-		if st, ok := in.(*ssa.Store); ok && fi.Sym(st.Val).String() == "each("+rangeExpr+").val" {
-			out = fi.Sym(st.Addr).String()
+		st, ok := in.(*ssa.Store)
+		if !ok {
+			return
 		}
+		al, isAlloc := st.Addr.(*ssa.Alloc)
+		if !isAlloc {
+			return // a copy stored elsewhere (varargs of a trace call, ...)
+		}
+		if v := fi.Sym(st.Val).String(); v != val {
+			// the store's own value form may already be expressed through another resolved local
+			return
+		}
+		name := "local:" + al.Comment
+		for _, r := range *al.Referrers() {
+			switch u := r.(type) {
+			case *ssa.UnOp:
+				name = fi.Sym(u).String()
+			case *ssa.FieldAddr:
+				if e := fi.Sym(u); e.Op == "fld" && len(e.Args) == 1 {
+					name = e.Args[0].String()
+				}
+			}
+		}
+		out = name
 	})
 	return out
 }
@@ -425,4 +471,136 @@ func (h H) expandLocals(fn *ssa.Function, s string) string {
 
 func isIdentChar(c byte) bool {
 	return c == '_' || c >= '0' && c <= '9' || c >= 'a' && c <= 'z' || c >= 'A' && c <= 'Z'
+}
+
+// crossDeep: every path to target crosses an edge satisfying pass — inside
+// target's function, or, when that function is a new helper (core.IsNew), on
+// every path to each of its call sites (recursively, bounded).
+func (h H) crossDeep(target ssa.Instruction, pass func(core.Atom) bool, depth int) core.GateResult {
+	fn := target.Parent()
+	fi := h.P.Info(fn)
+	r := fi.MustCross(target, pass)
+	if r.OK || depth > 3 || !h.P.IsNew(fn) {
+		return r
+	}
+	// a closure of a new helper: lift to the site that creates/calls it is not modelled; only top-level helpers
+	if fn.Parent() != nil {
+		return r
+	}
+	callers := h.P.Callers(fn)
+	if len(callers) == 0 {
+		return r
+	}
+	for _, s := range callers {
+		if cr := h.crossDeep(s.Instr, pass, depth+1); !cr.OK {
+			return core.GateResult{OK: false, Witness: r.Witness + " ; and via caller " + h.pos(s.Instr) + ": " + cr.Witness}
+		}
+	}
+	return core.GateResult{OK: true}
+}
+
+// source is one of the values an expression may take, with the position at
+// which that choice is made (the end of the predecessor block for a phi edge,
+// the return statement for a value coming out of a new helper).
+type source struct {
+	Val  ssa.Value
+	At   ssa.Instruction
+	Edge *core.Edge // for a phi edge: the CFG edge on which the value is chosen
+}
+
+// sourceGated: the choice of this source implies a condition satisfying pass:
+// every path to the point of choice crosses such an edge, or the choosing edge
+// itself carries it.
+func (h H) sourceGated(src source, pass func(core.Atom) bool) core.GateResult {
+	fi := h.P.Info(src.At.Parent())
+	if src.Edge != nil {
+		if a, ok := fi.EdgeAtom(*src.Edge); ok && pass(a) {
+			return core.GateResult{OK: true}
+		}
+	}
+	return fi.MustCross(src.At, pass)
+}
+
+// valueSources resolves v (used at `at`) into the values it can stand for,
+// looking through phis, interface conversions and calls of helpers no rule
+// knows by name (core.IsNew): `x := cond ? a : b` written as an if/else, as a
+// switch, or moved into a function returns the same sources.
+func (h H) valueSources(v ssa.Value, at ssa.Instruction) []source {
+	var out []source
+	seen := map[ssa.Value]bool{}
+	var rec func(v ssa.Value, at ssa.Instruction, edge *core.Edge, depth int)
+	rec = func(v ssa.Value, at ssa.Instruction, edge *core.Edge, depth int) {
+		if depth > 6 || seen[v] {
+			return
+		}
+		switch x := v.(type) {
+		case *ssa.Phi:
+			seen[v] = true
+			for i, e := range x.Edges {
+				pred := x.Block().Preds[i]
+				var ed *core.Edge
+				for si, sc := range pred.Succs {
+					if sc == x.Block() && len(pred.Succs) == 2 {
+						ed = &core.Edge{From: pred, Succ: si}
+					}
+				}
+				rec(e, pred.Instrs[len(pred.Instrs)-1], ed, depth+1)
+			}
+			return
+		case *ssa.MakeInterface:
+			if _, isConst := x.X.(*ssa.Const); !isConst {
+				rec(x.X, at, edge, depth+1)
+				return
+			}
+		case *ssa.ChangeInterface:
+			rec(x.X, at, edge, depth+1)
+			return
+		case *ssa.Call:
+			if callee := x.Common().StaticCallee(); callee != nil && h.P.IsNew(callee) && callee.Blocks != nil && callee.Signature.Results().Len() == 1 {
+				seen[v] = true
+				for _, r := range core.Returns(callee) {
+					rec(retOperand(r, 0), r, nil, depth+1)
+				}
+				return
+			}
+		}
+		out = append(out, source{v, at, edge})
+	}
+	rec(v, at, nil, 0)
+	return out
+}
+
+// effectiveRoots names the known top-level functions on whose behalf code in
+// fn runs: fn's own root when the rules know it, otherwise (a helper extracted
+// by a refactoring, core.IsNew) the known functions that call it, transitively.
+func (h H) effectiveRoots(fn *ssa.Function) []string {
+	seen := map[*ssa.Function]bool{}
+	out := map[string]bool{}
+	var rec func(f *ssa.Function, depth int)
+	rec = func(f *ssa.Function, depth int) {
+		r := core.Root(f)
+		if seen[r] || depth > 5 {
+			return
+		}
+		seen[r] = true
+		if !h.P.IsNew(r) {
+			out[h.name(r)] = true
+			return
+		}
+		callers := h.P.Callers(r)
+		if len(callers) == 0 {
+			out[h.name(r)] = true // unreachable new helper: reported under its own name
+			return
+		}
+		for _, s := range callers {
+			rec(s.Fn, depth+1)
+		}
+	}
+	rec(fn, 0)
+	var names []string
+	for n := range out {
+		names = append(names, n)
+	}
+	sort.Strings(names)
+	return names
 }
